@@ -75,6 +75,7 @@ type Frame struct {
 	idx      int
 	defers   []deferRec
 	retTo    ssa.Value // register in the caller frame receiving the result; nil for deferred/go
+	onReturn func(vc *VC, st *State, res []Value) []Value // post-processing of an inlined frame's results (transaction commit/rollback)
 	cut      map[*ssa.BasicBlock]bool
 	iters    map[ssa.Value]*iterState
 	contract *Contract // contract whose loop invariants apply to this frame (may be nil)
@@ -141,6 +142,13 @@ type State struct {
 	events  []Event
 	dead    bool
 	gmaps   []guardedMap // map references loaded from mutex-guarded fields on this path
+	txnCount int         // database transactions completed on this path
+	strConvs []strConv   // []byte(s) conversions made on this path: the fresh array and the string it holds
+}
+
+type strConv struct {
+	ref *Term
+	str *Term
 }
 
 // guardedMap: a map reference read out of a guarded field; operations on the same map through
@@ -153,7 +161,7 @@ type guardedMap struct {
 }
 
 func (s *State) clone() *State {
-	t := &State{alloc: s.alloc, clock: s.clock, gmaps: s.gmaps[:len(s.gmaps):len(s.gmaps)]}
+	t := &State{alloc: s.alloc, clock: s.clock, gmaps: s.gmaps[:len(s.gmaps):len(s.gmaps)], txnCount: s.txnCount, strConvs: s.strConvs[:len(s.strConvs):len(s.strConvs)]}
 	t.pc = append([]string{}, s.pc...)
 	t.heaps = make(map[string]*Term, len(s.heaps))
 	for k, v := range s.heaps {
